@@ -37,7 +37,60 @@ class CVector(list):
         return len(self)
 
     def at(self, i):
+        if i < 0 or i >= len(self):
+            raise CFault("vector index out of range: %r (size %d)" % (i, len(self)))
         return self[i]
+
+    def _new_element(self):
+        """value-initialised element (std::vector<T>::resize): an empty vector for a nested vector type, NULL for pointers, 0 for numbers"""
+        e = self.elem
+        if isinstance(e, tuple) and e and e[0] == "vector":
+            return CVector(elem=e[1] if len(e) > 1 else "obj")
+        if isinstance(e, tuple) and e and e[0] == "ptr" or e in ("obj", "void"):
+            return NULL if "NULL" in globals() else None
+        return 0.0 if e in ("double", "float") else 0
+
+    def resize(self, n, value=None):
+        n = int(n)
+        if n < 0:
+            raise CFault("vector::resize with a negative size")
+        if n < len(self):
+            del self[n:]
+        while len(self) < n:
+            self.append(self._new_element() if value is None else (CVector(value, value.elem) if isinstance(value, CVector) else value))
+
+    def reserve(self, n):
+        return None
+
+    def shrink_to_fit(self):
+        return None
+
+    def empty(self):
+        return len(self) == 0
+
+    def front(self):
+        if not len(self):
+            raise CFault("front() of an empty vector")
+        return self[0]
+
+    def back(self):
+        if not len(self):
+            raise CFault("back() of an empty vector")
+        return self[-1]
+
+    def pop_back(self):
+        if not len(self):
+            raise CFault("pop_back() of an empty vector")
+        list.pop(self)
+
+    def assign(self, n, value):
+        del self[:]
+        self.resize(n, value)
+
+    def swap(self, other):
+        a, b = list(self), list(other)
+        self[:] = b
+        other[:] = a
 
     def __hash__(self):
         return id(self)
